@@ -278,13 +278,38 @@ def hostile_patches(data: bytes, rng: random.Random, kind: str):
 
 # --------------------------------------------------------------------------- cases
 
+def second_object_table(r, rng):
+    """directed layout: the FIRST object table holds an allocated ObjectTable entry that points to a SECOND object table, and that
+    second table lists the key table with the most entries (and one more at random) and every second file object -- so a reader
+    that does not follow ObjectTable entries, or follows them without registering what they list, loses keys / values."""
+    r = copy.deepcopy(r)
+    objs = [o for o in r["objs"] if not (o[1] == "ot")]
+    for o in objs:                      # everything into tables 0 / 1 only, chain 0 -> 1
+        o[0] = min(o[0], 1)
+    kts = [o for o in objs if o[1] == "kt"]
+    if kts:
+        big = max(kts, key=lambda o: sum(1 for it in r["tables"][o[2]]["items"] if isinstance(it, int)))
+        big[0] = 1
+        rng.choice(kts)[0] = 1
+    for j, o in enumerate([o for o in objs if o[1] == "fo"]):
+        o[0] = 1 if j % 2 == 0 else o[0]
+    objs.insert(rng.randrange(len(objs) + 1), [0, "ot", 1])
+    if rng.random() < 0.3:
+        objs.append([1, "ot", 0])        # back link: must not be loaded a second time
+    r["objs"] = objs
+    return r
+
+
 def generate(seed, tier):
     rng = random.Random(f"C17/{seed}/{tier}")
     n = 200 if tier == "quick" else 2600
     cases = []
     for i in range(n):
         far = (i % 40 == 17)
-        cases.append({"id": f"g{i}", "recipe": gen_hyperv.gen_recipe(rng, tier if i % 8 == 7 else "quick", far=far), "queries": ["as_dict", "typed"]})
+        r = gen_hyperv.gen_recipe(rng, tier if i % 8 == 7 else "quick", far=far)
+        if i % 4 == 1:
+            r = second_object_table(r, rng)
+        cases.append({"id": f"g{i}", "recipe": r, "queries": ["as_dict", "typed"]})
     for i in range(12 if tier == "quick" else 120):
         cases.append({"id": f"r{i}", "recipe": gen_hyperv.gen_recipe(rng, "quick", p_root_leaf=1.0), "root_leaf": True, "queries": ["as_dict", "typed"]})
     for i in range(60 if tier == "quick" else 1200):
@@ -313,7 +338,7 @@ def build(case):
             im.truncate(min(trunc, im.size))
         applied = bool(patches) or trunc is not None
     in_scope = not hostile and not case.get("root_leaf")
-    T = block("A", dict_items(gen_hyperv.canon(truth))) + block("T", typed_items(typed)) if in_scope else None
+    T = block("A", dict_items(gen_hyperv.canon(truth))) + block("T", typed_items(typed)) + ["R:same"] if in_scope else None
     types = sorted({e["spec"]["t"] for e in ents})
     nfo = sum(1 for e in ents if gen_hyperv.is_fo(e["spec"], opts.get(str(e["id"]), {})))
     decoys = r.get("decoys", [])
@@ -328,6 +353,8 @@ def build(case):
             if d.get("alloc", 1) and d["kind"] == "mut" and dpos is not None and d["of"] in kt_pos:
                 br.add("stale-copy-listed-" + ("after" if dpos > kt_pos[d["of"]] else "before"))
     br |= {"multi-object-table"} if any(o[0] > 0 for o in r["objs"]) else set()
+    br |= {"key-table-in-2nd-object-table"} if any(o[0] > 0 and o[1] == "kt" and any(isinstance(it, int) for it in r["tables"][o[2]]["items"]) for o in r["objs"]) else set()
+    br |= {"file-object-in-2nd-object-table"} if any(o[0] > 0 and o[1] == "fo" for o in r["objs"]) else set()
     br |= {"free-entries"} if any(not isinstance(it, int) for t in r["tables"] for it in t["items"]) else set()
     br |= {"far"} if r.get("far") else set()
     br |= {"uint>=2^63"} if any(e["spec"]["t"] == "uint" and e["spec"]["v"] >= 2 ** 63 for e in ents) else set()
@@ -343,36 +370,63 @@ def build(case):
 
 
 def impl_run(case, built):
+    """as_dict() and the typed walk, then BOTH AGAIN on the same HyperVFile object, then every leaf `.value` once more in reverse
+    order: a decoded value must not depend on how often or in which order it (or a file object) was read before."""
     from dissect.hypervisor.descriptor.c_hyperv import KeyDataType
     src = built.data if built.data is not None else built.files["a"]
     errors = {}
     try:
         hv = gen_hyperv._open(src)
     except Exception as e:  # noqa
-        return {"answers": ["E", "E"], "errors": {"0": f"{type(e).__name__}: {e}"[:300]}}
-    try:
-        a = dict_items(gen_hyperv.canon(hv.as_dict()))
-    except Exception as e:  # noqa
-        a = None
-        errors["0"] = f"as_dict: {type(e).__name__}: {e}"[:300]
+        return {"answers": ["E", "E", "R:same"], "errors": {"0": f"{type(e).__name__}: {e}"[:300]}}
 
-    def walk(children, pfx):
+    def as_dict(tag):
+        try:
+            return dict_items(gen_hyperv.canon(hv.as_dict()))
+        except Exception as e:  # noqa
+            errors.setdefault(tag, f"as_dict: {type(e).__name__}: {e}"[:300])
+            return None
+
+    def walk(children, pfx, leaves):
         out = []
         for k, e in children.items():
             p = _path(pfx, k)
             if e.type == KeyDataType.Node:
                 out.append(p + ":N")
-                out += walk(e.children, p)
+                out += walk(e.children, p, leaves)
             else:
                 v = e.value
                 out.append(p + ":" + _val_canon(e.type.name, gen_hyperv.canon(v)))
+                leaves.append((out[-1], p, e))
         return out
-    try:
-        t = walk(hv.root, "")
-    except Exception as e:  # noqa
-        t = None
-        errors["1"] = f"typed: {type(e).__name__}: {e}"[:300]
-    return {"answers": block("A", a) + block("T", t), "errors": errors}
+
+    def typed(tag, leaves):
+        try:
+            return walk(hv.root, "", leaves)
+        except Exception as e:  # noqa
+            errors.setdefault(tag, f"typed: {type(e).__name__}: {e}"[:300])
+            return None
+    a1 = as_dict("0")
+    leaves = []
+    t1 = typed("1", leaves)
+    a2 = as_dict("0b")
+    t2 = typed("1b", [])
+    same = (a1 == a2) and (t1 == t2)
+    if t1 is not None:
+        for item, p, e in reversed(leaves):
+            try:
+                again = p + ":" + _val_canon(e.type.name, gen_hyperv.canon(e.value))
+            except Exception as ex:  # noqa
+                again = f"E {type(ex).__name__}"
+            if again != item:
+                same = False
+                errors["R"] = f"{p}: first {item[-60:]}, again {again[-60:]}"
+                break
+    elif a1 is not None and a2 is not None and a1 != a2:
+        errors["R"] = "as_dict() differs between two calls"
+    if not same and "R" not in errors:
+        errors["R"] = "second as_dict() / typed walk differs from the first"
+    return {"answers": block("A", a1) + block("T", t1) + ["R:same" if same else "R:differs"], "errors": errors}
 
 
 def model_lines(case, built):
@@ -396,7 +450,7 @@ def model_parse(case, built, out):
     t, et = _mblock("T", st, False)
     if "nonterm" in (ea, et):
         return {"answers": None, "wf": False, "raw": "model fuel exhausted"}
-    return {"answers": block("A", a) + block("T", t), "wf": a is not None and t is not None and built.info["in_scope"], "errs": [ea, et]}
+    return {"answers": block("A", a) + block("T", t) + ["R:same"], "wf": a is not None and t is not None and built.info["in_scope"], "errs": [ea, et]}
 
 
 def nontrivial(case, built, model):
